@@ -107,15 +107,16 @@ type pathState struct {
 	opts      *Options
 	pcChecked bool // pc known satisfiable since last strengthening
 
-	atoms       map[int]bool
-	lazy        bool
-	wantWitness bool
-	lastModel   map[string]string
-	leakCheck   bool
-	poolNondet  bool
-	gomaxprocs  int
-	knownEvents []knownEvent
-	faultSites  int
+	atoms           map[int]bool
+	lazy            bool
+	infeasibleEvent bool
+	wantWitness     bool
+	lastModel       map[string]string
+	leakCheck       bool
+	poolNondet      bool
+	gomaxprocs      int
+	knownEvents     []knownEvent
+	faultSites      int
 }
 
 // Options for a run.
@@ -418,7 +419,11 @@ func (p *pathState) checkAssert(site string, c *smt.Term, msg string) {
 			}
 		}
 	} else {
+		t0 := time.Now()
 		r, who = p.decide(extra)
+		if smt.QLog {
+			fmt.Fprintf(os.Stderr, "A %.2f %s %v\n", time.Since(t0).Seconds(), site, r)
+		}
 	}
 	switch r {
 	case smt.Sat:
